@@ -15,6 +15,9 @@ import (
 
 	"github.com/ava-labs/avalanchego/database"
 
+	"github.com/ava-labs/hypersdk/chain"
+	"github.com/ava-labs/hypersdk/chain/chaintest"
+	"github.com/ava-labs/hypersdk/codec"
 	"github.com/ava-labs/hypersdk/state"
 	"github.com/ava-labs/hypersdk/state/tstate"
 	"github.com/ava-labs/hypersdk/verifharness/emit"
@@ -33,8 +36,34 @@ type decl struct {
 }
 
 type scopeSpec struct {
-	Kind  string `json:"kind"` // "all" | "add" | "raw"
+	Kind  string `json:"kind"` // "all" | "add" | "raw" | "tx"
 	Decls []decl `json:"decls,omitempty"`
+	// kind "tx": the scope is computed by chain.Transaction.StateKeys from one declaration group per
+	// action plus a last group for the sponsor (no key twice inside one group)
+	Groups [][]decl `json:"groups,omitempty"`
+}
+
+// flat returns the declarations in the order Transaction.StateKeys folds them (up to the order
+// inside one action, which cannot matter: keys of one group are distinct).
+func (sp scopeSpec) flat() []decl {
+	if sp.Kind != "tx" {
+		return sp.Decls
+	}
+	var out []decl
+	for _, g := range sp.Groups {
+		out = append(out, g...)
+	}
+	return out
+}
+
+type txBH struct{ keys state.Keys }
+
+func (b txBH) SponsorStateKeys(codec.Address) state.Keys { return b.keys }
+func (txBH) CanDeduct(context.Context, codec.Address, state.Immutable, uint64) error { return nil }
+func (txBH) Deduct(context.Context, codec.Address, state.Mutable, uint64) error     { return nil }
+func (txBH) AddBalance(context.Context, codec.Address, state.Mutable, uint64) error { return nil }
+func (txBH) GetBalance(context.Context, codec.Address, state.Immutable) (uint64, error) {
+	return 0, nil
 }
 
 type hop struct {
@@ -141,6 +170,29 @@ func buildScope(sp scopeSpec) (state.Scope, bool) {
 			if !ks.Add(string(d.K), state.Permissions(d.P)) {
 				return nil, false
 			}
+		}
+		return ks, true
+	case "tx":
+		var actions []chain.Action
+		sponsor := state.Keys{}
+		for gi, g := range sp.Groups {
+			if gi == len(sp.Groups)-1 {
+				for _, d := range g {
+					sponsor[string(d.K)] = state.Permissions(d.P)
+				}
+				break
+			}
+			a := &chaintest.TestAction{NumComputeUnits: 1, Nonce: uint64(gi)}
+			for _, d := range g {
+				a.SpecifiedStateKeys = append(a.SpecifiedStateKeys, string(d.K))
+				a.SpecifiedStateKeyPermissions = append(a.SpecifiedStateKeyPermissions, state.Permissions(d.P))
+			}
+			actions = append(actions, a)
+		}
+		tx := &chain.Transaction{TransactionData: chain.TransactionData{Actions: actions}, Auth: chaintest.NewDummyTestAuth()}
+		ks, err := tx.StateKeys(txBH{sponsor})
+		if err != nil {
+			return nil, false
 		}
 		return ks, true
 	default:
@@ -362,12 +414,13 @@ func cScope(sp scopeSpec) string {
 	if sp.Kind == "all" {
 		return "SAll"
 	}
-	items := make([]string, len(sp.Decls))
-	for i, d := range sp.Decls {
+	decls := sp.flat()
+	items := make([]string, len(decls))
+	for i, d := range decls {
 		items[i] = emit.Pair(emit.Bytes(d.K), fmt.Sprintf("%d", d.P))
 	}
 	c := "SRaw"
-	if sp.Kind == "add" {
+	if sp.Kind == "add" || sp.Kind == "tx" {
 		c = "SAdd"
 	}
 	return "(" + c + " " + emit.List("list N * N", items) + ")"
@@ -536,9 +589,9 @@ func declaredPerm(sp scopeSpec, k []byte) byte {
 		return 255
 	}
 	var p byte
-	for _, d := range sp.Decls {
+	for _, d := range sp.flat() {
 		if bytes.Equal(d.K, k) {
-			if sp.Kind == "add" {
+			if sp.Kind == "add" || sp.Kind == "tx" {
 				p |= d.P
 			} else {
 				p = d.P
@@ -832,6 +885,26 @@ func (g *caseGen) scope(full int) scopeSpec {
 		}
 	}
 	r.Shuffle(len(sp.Decls), func(i, j int) { sp.Decls[i], sp.Decls[j] = sp.Decls[j], sp.Decls[i] })
+	if sp.Kind == "add" && r.Intn(100) < 45 {
+		// the same declarations spread over the actions of a transaction and its sponsor
+		n := 2 + r.Intn(3)
+		groups := make([][]decl, n)
+		for _, d := range sp.Decls {
+			gi := r.Intn(n)
+			for t := 0; t < n; t++ { // first group (from gi) that does not hold the key yet
+				g := (gi + t) % n
+				dup := false
+				for _, e := range groups[g] {
+					dup = dup || bytes.Equal(e.K, d.K)
+				}
+				if !dup {
+					groups[g] = append(groups[g], d)
+					break
+				}
+			}
+		}
+		return scopeSpec{Kind: "tx", Groups: groups}
+	}
 	return sp
 }
 
